@@ -377,6 +377,22 @@ func (in *Interp) InstallFloatStubs() {
 	in.Stubs["math.Trunc"] = func(in *Interp, _ Value, a []Value) ([]Value, error) {
 		return []Value{math.Trunc(fl(a[0]))}, nil
 	}
+	for name, fn := range map[string]func(float64) float64{"Abs": math.Abs, "Floor": math.Floor, "Ceil": math.Ceil, "Round": math.Round, "RoundToEven": math.RoundToEven, "Sqrt": math.Sqrt, "Log10": math.Log10, "Log2": math.Log2, "Log": math.Log, "Exp": math.Exp} {
+		fn := fn
+		in.Stubs["math."+name] = func(in *Interp, _ Value, a []Value) ([]Value, error) {
+			return []Value{fn(fl(a[0]))}, nil
+		}
+	}
+	in.Stubs["math.Copysign"] = func(in *Interp, _ Value, a []Value) ([]Value, error) {
+		return []Value{math.Copysign(fl(a[0]), fl(a[1]))}, nil
+	}
+	in.Stubs["math.Mod"] = func(in *Interp, _ Value, a []Value) ([]Value, error) {
+		return []Value{math.Mod(fl(a[0]), fl(a[1]))}, nil
+	}
+	in.Stubs["math.Modf"] = func(in *Interp, _ Value, a []Value) ([]Value, error) {
+		i, f := math.Modf(fl(a[0]))
+		return []Value{i, f}, nil
+	}
 	in.Stubs["strconv.FormatFloat"] = func(in *Interp, _ Value, a []Value) ([]Value, error) {
 		f, _ := a[1].(int64)
 		p, _ := a[2].(int64)
